@@ -117,10 +117,10 @@ func runsFor(prop, tier string) []run {
 			{"rf3-from-2rw+wo-windows", mk(rw2wo, false), pick(4, 6), minutes(pickf(0.6, 4))},
 		}
 	case "C05":
-		alpha := []string{"W", "Sy", "R", "MonFail", "MonWake", "Remove", "Add", "Sync", "Verify", "Restart"}
+		alpha := []string{"W", "Sy", "R", "Snap", "ERR", "MonFail", "MonWake", "Remove", "Add", "Sync", "Verify", "Restart"}
 		or := []string{"c02", "c05", "c04", "c18"}
 		mk := func(rf, n int, init []string) eb.Cfg {
-			return eb.Cfg{RF: rf, N: n, Alphabet: alpha, Oracles: or, Drain: false, MaxWrites: 2, MaxReads: 2, MaxAdds: 2, MaxRestarts: 1, MaxFaults: 3, InitOps: init}
+			return eb.Cfg{RF: rf, N: n, Alphabet: alpha, Oracles: or, Drain: false, MaxWrites: 2, MaxReads: 2, MaxSnaps: 1, MaxAdds: 2, MaxRestarts: 1, MaxFaults: 3, InitOps: init}
 		}
 		return []run{
 			{"rf3-from-3rw", mk(3, 3, rw3), pick(4, 6), minutes(pickf(1, 6))},
